@@ -290,7 +290,7 @@ class ProbeMixin:
         return HistProp.shrink_candidates(self, inp)
 
 
-class C03(HistProp):
+class C03(ProbeMixin, HistProp):
     id = 'C03'
     props_file = 'theories/Props/C03.v'
     series_share = 0.1
@@ -307,7 +307,52 @@ class C03(HistProp):
             'dumped and compared in Coq with Spec.step (ids ascending, left-biased cells, all columns), operands via '
             'the frame check; non-trivial = at least two state-changing steps; distinct by (ops, seed)')
     trusted_base = CORE_TRUST
-    assumptions = CORE_ASSUME
+    assumptions = CORE_ASSUME + ['operands that name a row twice (index lists with a repeated index) are outside the Coq '
+                                 'model (duplicate row ids); the each-row-once / commutative-membership clauses are '
+                                 'probed for them on the Python side']
+
+    def generate(self, rng, tier):
+        return super().generate(rng, tier) + self.direct_probes(rng, 40 if tier == 'quick' else 400)
+
+    def direct_probes(self, rng, n):
+        """Relatives that name a row twice (dm[[9, 2, 5, 5, 12]]): the merged table still holds each row once, in
+        row-creation order, and membership is commutative; empty relatives are neutral / absorbing."""
+        world._imports()
+        from datamatrix import DataMatrix, FloatColumn
+        out = []
+        for k in range(n):
+            sub = random.Random(rng.randrange(1 << 30))
+            problem = None
+            with warnings.catch_warnings():
+                warnings.simplefilter('ignore')
+                try:
+                    m = sub.randint(9, 16)
+                    dm = DataMatrix(length=m)
+                    dm.a = ['r%d' % i for i in range(m)]
+                    dm.f = FloatColumn
+                    dm.f = list(range(m))
+                    la = [sub.randrange(m) for _ in range(sub.randint(2, 6))]
+                    la.insert(sub.randrange(len(la) + 1), sub.choice(la))          # one index twice
+                    lb = sub.sample(range(m), sub.randint(0, 6))
+                    a, b = dm[la], (dm[lb] if lb else dm[:0])      # dm[[]] is a column selection (see DESIGN I.5)
+                    if sub.random() < 0.3:
+                        b = dm.f < 0                                                # an empty relative (a comparison)
+                        lb = []
+                    ops_ = {'|': (lambda x, y: x | y, set(la) | set(lb)), '&': (lambda x, y: x & y, set(la) & set(lb)),
+                            '^': (lambda x, y: x ^ y, set(la) ^ set(lb))}
+                    for sym, (f, want) in sorted(ops_.items()):
+                        for x, y, nm in ((a, b, 'a %s b' % sym), (b, a, 'b %s a' % sym)):
+                            r = f(x, y)
+                            got = [int(v) for v in r.f]
+                            if got != sorted(want) or list(r.a) != ['r%d' % i for i in sorted(want)]:
+                                problem = problem or ('%s with a = dm[%r], b = dm[%r]: rows %r, expected each of %r once, '
+                                                      'in row-creation order' % (nm, la, lb, got, sorted(want)))
+                except Exception as e:      # noqa: BLE001
+                    problem = 'probe raised %r' % (e,)
+            out.append({'input': {'probe': 'repeated_row_operand', 'seed': k}, 'observed': {'problem': problem},
+                        'pyfail': problem, 'oracle': 'true', 'model': 'true', 'nontrivial': True,
+                        'sig': 'probe|repeated_row_operand|%d' % k, 'tags': ['probe', 'probe:repeated_row_operand']})
+        return out
 
 
 class C04(ProbeMixin, HistProp):
@@ -391,7 +436,50 @@ class C06(ProbeMixin, HistProp):
             'replace_series_nohit': lambda dm: ops.replace(dm.s, {7.5: 70.0}),
             'replace_mixed_nohit': lambda dm: ops.replace(dm.a, {'q': 'r'}),
             'col_slice': lambda dm: dm.f[1:],
+            # nothing to drop: still a new table
+            'keep_only_all': lambda dm: ops.keep_only(dm, *dm.column_names),
+            'keep_only_all_objs': lambda dm: ops.keep_only(dm, *[c for _n, c in dm.columns]),
+            'getitem_all_names': lambda dm: dm[list(dm.column_names)],
+            # augmented assignment on a column object held under another Python name derives a new column
+            'iadd_series': lambda dm: _aug(dm.s, '+', 1),
+            'imul_series': lambda dm: _aug(dm.s, '*', 2),
+            'isub_float': lambda dm: _aug(dm.f, '-', 1),
+            'imul_int': lambda dm: _aug(dm.i, '*', 3),
+            'iadd_mixed': lambda dm: _aug(dm.a, '+', 1),
+            'idiv_series': lambda dm: _aug(dm.s, '/', 2),
+            # a memoized function hands out independent objects: the value it returned and every later hit
+            'memoized_hit': lambda dm: _memo_pair(dm)[1],
+            'memoized_first': lambda dm: _memo_pair(dm)[0],
+            'sort_already_sorted_mixed': lambda dm: ops.sort(dm, by=dm.f),
         }
+
+        def _aug(c, o, x):
+            if o == '+':
+                c += x
+            elif o == '-':
+                c -= x
+            elif o == '*':
+                c *= x
+            else:
+                c /= x
+            return c
+
+        def _memo_pair(dm):
+            calls = []
+
+            @fnc.memoize
+            def make(n):
+                calls.append(n)
+                return dm[:]
+            r1 = make(len(dm))
+            r2 = make(len(dm))
+            # the two results must not be one object either: mutate the first, the second must not follow
+            if len(r1):
+                r1.f[0] = -55.0
+                if list(r2.f)[0] == -55.0:
+                    raise AssertionError('two results of a memoized function are one object')
+                r1.f[0] = list(dm.f)[0]
+            return r1, r2
 
         EMPTY_UNSUPPORTED = set()
 
@@ -445,9 +533,14 @@ class C06(ProbeMixin, HistProp):
                     dm = dm.i > 100             # nothing to derive from: an empty selection (fast paths for `no rows`)
                 problem = None
                 try:
+                    before_derive = snap(dm)
                     d = derivers[name](dm)
+                    if snap(dm) != before_derive:
+                        problem = 'deriving with %s changed the source' % name
+                    if d is dm or any(d is c for _n, c in dm.columns):
+                        problem = 'deriving with %s returned the source object itself' % name
                     owners_ok = all(c.dm is dm for _n, c in dm.columns) and [n_ for n_, _c in dm.columns] == ['a', 'f', 'i', 's']
-                    if not owners_ok:
+                    if not owners_ok and problem is None:
                         problem = 'deriving with %s detached or renamed a column of the source' % name
                     if not isinstance(d, DataMatrix) and len(d) == len(dm) and len(dm) and sub.random() < 0.5:
                         # a derived column put into the table is a column of its own
@@ -541,7 +634,7 @@ class C09(ProbeMixin, HistProp):
             sub = random.Random(rng.randrange(1 << 30))
             problem = None
             kind = sub.choice(['row', 'row_neg', 'row_sorted', 'dict', 'series', 'reused_row', 'dict_columns', 'series_zero',
-                               'last_row_follows'])
+                               'last_row_follows', 'dict_default_type'])
             with warnings.catch_warnings():
                 warnings.simplefilter('ignore')
                 try:
@@ -596,6 +689,22 @@ class C09(ProbeMixin, HistProp):
                                        % (len(r), list(r.x)[-1], list(r.z)[-1], want))
                         if len(r0) != 4:
                             problem = 'a << dm[-k] has %d rows' % len(r0)
+                    elif kind == 'dict_default_type':
+                        # the dict operand is a table of its own: its columns are MixedColumns whatever the default
+                        # column type of the left operand; a name both have must then have the same type (TypeError)
+                        dflt = sub.choice([FloatColumn, IntColumn])
+                        a2 = DataMatrix(length=2, default_col_type=dflt)
+                        a2.v = 1, 2
+                        r = a2 << {'cond': ['easy', 'hard']}
+                        if type(r.cond).__name__ != 'MixedColumn' or list(r.cond) != ['', '', 'easy', 'hard'] or \
+                                [float(x) for x in list(r.v)[:2]] != [1.0, 2.0] or type(r.v) is not dflt:
+                            problem = 'a << dict with default_col_type=%s on the left: cond is %s %r, v is %s %r' % (
+                                dflt.__name__, type(r.cond).__name__, list(r.cond), type(r.v).__name__, list(r.v))
+                        try:
+                            r = a2 << {'v': [5]}
+                            problem = problem or 'a << {v: ...}: a %s named v on the left and a MixedColumn on the right were accepted' % dflt.__name__
+                        except TypeError:
+                            pass
                     elif kind == 'dict_columns':
                         # dict values that are column objects of another table count as sequences of their cells
                         c = DataMatrix(length=2)
@@ -685,7 +794,8 @@ class C11(ProbeMixin, HistProp):
         for k in range(n):
             sub = random.Random(rng.randrange(1 << 30))
             kind = sub.choice(['shuffle_col', 'sample_col', 'shuffle_horiz', 'shuffle_horiz_one', 'orders', 'sample_err',
-                               'shuffle_col_key', 'sample_col_key', 'shuffle_horiz_series'])
+                               'shuffle_col_key', 'sample_col_key', 'shuffle_horiz_series', 'shuffle_series_col',
+                               'sample_series_col'])
             problem = None
             with warnings.catch_warnings():
                 warnings.simplefilter('ignore')
@@ -743,6 +853,28 @@ class C11(ProbeMixin, HistProp):
                             srcvals = before[{'a': 0, 'f': 2, 'u': 3}[src_col]]
                             if [srcvals[before[3].index(u)] for u in sel.u] != [v]:
                                 problem = 'sampled column == %r selected the rows u=%r' % (v, list(sel.u))
+                    elif kind in ('shuffle_series_col', 'sample_series_col'):
+                        # a SeriesColumn shuffled / sampled AS A COLUMN: its rows (whole series) are rearranged, none
+                        # duplicated or lost, and the source is unchanged
+                        from datamatrix import SeriesColumn
+                        d0 = dm[:]
+                        d0.s = SeriesColumn(depth=sub.randint(1, 3))
+                        for i in range(5):
+                            d0.s[i] = [10 * (i + 1) + j for j in range(d0.s.depth)]
+                        src_rows = [tuple(float(x) for x in d0.s[i]) for i in range(5)]
+                        if kind == 'shuffle_series_col':
+                            c = ops.shuffle(d0.s)
+                            got = [tuple(float(x) for x in c[i]) for i in range(len(c))]
+                            if sorted(got) != sorted(src_rows):
+                                problem = 'shuffle(series column) is not a rearrangement of its rows: %r' % (got,)
+                        else:
+                            kk = sub.randint(0, 5)
+                            c = ops.random_sample(d0.s, kk)
+                            got = [tuple(float(x) for x in c[i]) for i in range(len(c))]
+                            if len(got) != kk or len(set(got)) != kk or not set(got) <= set(src_rows):
+                                problem = 'random_sample(series column, %d) -> %r' % (kk, got)
+                        if [tuple(float(x) for x in d0.s[i]) for i in range(5)] != src_rows:
+                            problem = problem or 'shuffling / sampling a series column changed the source'
                     elif kind == 'shuffle_horiz_series':
                         from datamatrix import SeriesColumn
                         d0 = dm[:]
